@@ -56,6 +56,9 @@ type World struct {
 	CheckJobs bool
 	// NoJobs makes RunJob a no-op that still takes its time slot (twin runs)
 	NoJobs bool
+	// DiagPulls records, with every pull, the incomplete delivery rows of the
+	// subscription as they were before the call (diagnosis of twin differences)
+	DiagPulls bool
 }
 
 type OpRec struct {
@@ -65,6 +68,7 @@ type OpRec struct {
 	Args string `json:"args,omitempty"`
 	Res  string `json:"res,omitempty"`
 	Obs  string `json:"obs,omitempty"` // canonical client-visible observation (for twin comparison)
+	Diag string `json:"diag,omitempty"`
 }
 
 type Viol struct {
@@ -840,8 +844,50 @@ func (w *World) PullWait(name string, max int) []*pubsubpb.ReceivedMessage {
 	return w.pull(name, max, false)
 }
 
+// pullDiag: the subscription's incomplete delivery rows (message, attempts,
+// attempt_at and expires_at relative to now, and the predecessor's state).
+func (w *World) pullDiag(name string) string {
+	q := `SELECT d.message_id, d.attempts, d.attempt_at, d.expires_at, d.not_before_id, p.message_id, p.completed_at, p.expires_at
+	      FROM deliveries d JOIN subscriptions s ON d.subscription_id = s.id LEFT JOIN deliveries p ON d.not_before_id = p.id
+	      WHERE s.name = ? AND s.deleted_at IS NULL AND d.completed_at IS NULL ORDER BY d.published_at, d.id`
+	rows, err := w.E.RawDB().QueryContext(context.Background(), q, name)
+	if err != nil {
+		return "query failed: " + err.Error()
+	}
+	defer rows.Close()
+	now := w.now()
+	var out []string
+	for rows.Next() {
+		var mid, nb, pmid, pca, pea any
+		var att int
+		var at, ea any
+		if err := rows.Scan(&mid, &att, &at, &ea, &nb, &pmid, &pca, &pea); err != nil {
+			return "scan failed: " + err.Error()
+		}
+		rel := func(v any) string {
+			if t, ok := v.(time.Time); ok {
+				return t.Sub(now).String()
+			}
+			return "NULL"
+		}
+		pred := "none"
+		if nb != nil {
+			pred = fmt.Sprintf("%s(completed=%v expires=%s)", short(idString(pmid)), pca != nil, rel(pea))
+			if pmid == nil {
+				pred = "dangling"
+			}
+		}
+		out = append(out, fmt.Sprintf("%s att=%d due=%s exp=%s pred=%s", short(idString(mid)), att, rel(at), rel(ea), pred))
+	}
+	return strings.Join(out, "; ")
+}
+
 func (w *World) pull(name string, max int, immediately bool) []*pubsubpb.ReceivedMessage {
 	w.slot()
+	diag := ""
+	if w.DiagPulls {
+		diag = w.pullDiag(name)
+	}
 	lo := w.now()
 	resp, err := w.E.Sub.Pull(w.Ctx, &pubsubpb.PullRequest{Subscription: name, MaxMessages: int32(max), ReturnImmediately: immediately})
 	hi := w.now()
@@ -858,6 +904,7 @@ func (w *World) pull(name string, max int, immediately bool) []*pubsubpb.Receive
 		opName = "pull-wait"
 	}
 	w.rec(opName, fmt.Sprintf("%s max=%d", name, max), fmt.Sprintf("%s n=%d", code(err), n))
+	w.Ops[len(w.Ops)-1].Diag = diag
 	if resp != nil {
 		var obs []string
 		for _, rm := range resp.ReceivedMessages {
